@@ -869,6 +869,21 @@ func (env *SpecEnv) special(name string, x *ast.CallExpr) (Value, bool) {
 		return env.quant(name, x), true
 	case "forallkey", "existskey":
 		return env.quantKey(name, x), true
+	case "ghost":
+		// ghost(name): a ghost integer variable (exists only in the verifier)
+		id, ok := x.Args[0].(*ast.Ident)
+		if !ok {
+			specErr("ghost(name)")
+		}
+		return Sc{env.st.heap("G|ghost."+id.Name+"|", IntSort), tInt}, true
+	case "ghostat":
+		// ghostat(name, k): element k of a ghost integer sequence
+		id, ok := x.Args[0].(*ast.Ident)
+		if !ok {
+			specErr("ghostat(name, k)")
+		}
+		k := env.evalInt(x.Args[1])
+		return Sc{Select(env.st.heap("G|ghostarr."+id.Name+"|", ArraySort(IntSort, IntSort)), k), tInt}, true
 	case "hastype":
 		// hastype(x, T): the dynamic type of interface value x is T
 		iv, ok := env.eval(x.Args[0]).(IfV)
@@ -887,9 +902,15 @@ func (env *SpecEnv) special(name string, x *ast.CallExpr) (Value, bool) {
 			specErr("as: first argument must be an interface value")
 		}
 		t := env.resolveType(x.Args[1])
+		if t == nil {
+			specErr("as: unknown type %s", exprStr(x.Args[1]))
+		}
 		pt, isP := t.Underlying().(*types.Pointer)
-		if t == nil || !isP {
+		if !isP {
 			specErr("as: second argument must be a pointer type")
+		}
+		if iv.Conc != nil && types.Identical(iv.Conc.Type(), t) {
+			return iv.Conc, true
 		}
 		return PtrV{Loc{Kind: LHeap, Root: pt.Elem(), Ref: iv.Ref, Ty: pt.Elem()}, t}, true
 	case "local":
@@ -1017,6 +1038,9 @@ func (env *SpecEnv) special(name string, x *ast.CallExpr) (Value, bool) {
 			specErr("fresh of %T", v)
 		}
 		return Sc{And(Not(ULt(r, env.old.Alloc)), ULt(r, env.st.Alloc)), tBool}, true
+	}
+	if lf, ok := specLibraryLate[name]; ok {
+		return lf(env, x.Args), true
 	}
 	if lf, ok := specLibrary[name]; ok {
 		var args []Value
